@@ -86,6 +86,45 @@ mod panics {
         pub out: Vec<Value>,
         pub ord: BTreeMap<String, usize>,
         pub in_test: usize,
+        /// variables (let-bound or closure parameters) known to hold one of a keyword list
+        pub kw_vars: Vec<(String, Vec<String>)>,
+        pub kw_checks: Vec<Value>,
+    }
+    /// first array literal of `Keyword::X` paths inside an expression
+    struct KwArr(Option<Vec<String>>);
+    impl<'ast> Visit<'ast> for KwArr {
+        fn visit_expr_array(&mut self, a: &'ast syn::ExprArray) {
+            if self.0.is_some() { return; }
+            let mut v = vec![];
+            for e in &a.elems {
+                if let syn::Expr::Path(p) = e {
+                    let segs: Vec<String> = p.path.segments.iter().map(|s| s.ident.to_string()).collect();
+                    if segs.len() == 2 && segs[0] == "Keyword" { v.push(segs[1].clone()); continue; }
+                }
+                return;
+            }
+            if !v.is_empty() { self.0 = Some(v); }
+        }
+    }
+    fn kw_array(e: &syn::Expr) -> Option<Vec<String>> {
+        let mut k = KwArr(None);
+        k.visit_expr(e);
+        k.0
+    }
+    fn pat_keywords(p: &syn::Pat, out: &mut Vec<String>) {
+        match p {
+            syn::Pat::Path(pp) => {
+                let segs: Vec<String> = pp.path.segments.iter().map(|s| s.ident.to_string()).collect();
+                if segs.len() == 2 && segs[0] == "Keyword" { out.push(segs[1].clone()); }
+            }
+            syn::Pat::TupleStruct(t) => { for e in &t.elems { pat_keywords(e, out); } }
+            syn::Pat::Or(o) => { for c in &o.cases { pat_keywords(c, out); } }
+            syn::Pat::Paren(pp) => pat_keywords(&pp.pat, out),
+            _ => {}
+        }
+    }
+    fn pat_ident(p: &syn::Pat) -> Option<String> {
+        match p { syn::Pat::Ident(i) => Some(i.ident.to_string()), syn::Pat::Type(t) => pat_ident(&t.pat), _ => None }
     }
     fn is_test_attr(attrs: &[syn::Attribute]) -> bool {
         attrs.iter().any(|a| {
@@ -121,8 +160,18 @@ mod panics {
             syn::visit::visit_item_fn(self, f);
             self.fn_stack.pop();
         }
+        fn visit_expr_let(&mut self, l: &'ast syn::ExprLet) {
+            // `if let Some(kw) = self.parse_one_of_keywords(&[..])` / `while let Some(kw) = ..`
+            if let Some(list) = kw_array(&l.expr) {
+                if let syn::Pat::TupleStruct(t) = &*l.pat {
+                    if let Some(name) = t.elems.first().and_then(pat_ident) { self.kw_vars.push((name, list)); }
+                }
+            }
+            syn::visit::visit_expr_let(self, l);
+        }
         fn visit_impl_item_fn(&mut self, f: &'ast syn::ImplItemFn) {
             if is_test_attr(&f.attrs) { return; }
+            self.kw_vars.clear();
             self.fn_stack.push(f.sig.ident.to_string());
             syn::visit::visit_impl_item_fn(self, f);
             self.fn_stack.pop();
@@ -138,7 +187,69 @@ mod panics {
                 use quote::ToTokens;
                 self.push(&m, e.receiver.to_token_stream().to_string());
             }
+            // `x.parse_one_of_keywords(&[..]).map(|kw| match kw { .. })`: the closure parameter holds one of the list
+            if m == "map" || m == "and_then" || m == "map_or" {
+                if let (Some(list), Some(syn::Expr::Closure(c))) = (kw_array(&e.receiver), e.args.last()) {
+                    if let Some(name) = c.inputs.first().and_then(pat_ident) { self.kw_vars.push((name, list)); }
+                }
+            }
             syn::visit::visit_expr_method_call(self, e);
+        }
+        fn visit_local(&mut self, l: &'ast syn::Local) {
+            if let (Some(name), Some(init)) = (pat_ident(&l.pat), &l.init) {
+                if let Some(list) = kw_array(&init.expr) { self.kw_vars.push((name, list)); }
+            }
+            syn::visit::visit_local(self, l);
+        }
+        fn visit_expr_match(&mut self, m: &'ast syn::ExprMatch) {
+            // `match self.parse_one_of_keywords(&[..]) { Some(kw) => .., None => .. }` binds kw
+            if let Some(list) = kw_array(&m.expr) {
+                for a in &m.arms {
+                    if let syn::Pat::TupleStruct(t) = &a.pat {
+                        if let Some(name) = t.elems.first().and_then(pat_ident) { self.kw_vars.push((name, list.clone())); }
+                    }
+                }
+            }
+            let has_unreachable = m.arms.iter().any(|a| {
+                use quote::ToTokens;
+                let b = a.body.to_token_stream().to_string();
+                matches!(&a.pat, syn::Pat::Wild(_)) && b.starts_with("unreachable !")
+            });
+            if has_unreachable {
+                use quote::ToTokens;
+                let mut arms = vec![];
+                let mut none_arm = false;
+                for a in &m.arms {
+                    pat_keywords(&a.pat, &mut arms);
+                    if a.pat.to_token_stream().to_string() == "None" { none_arm = true; }
+                }
+                // where does the scrutinee come from?
+                let mut list = kw_array(&m.expr);
+                let mut optional = false;
+                let scr = m.expr.to_token_stream().to_string();
+                if list.is_some() && scr.contains("parse_one_of_keywords") && !scr.contains("expect_one_of_keywords") { optional = true; }
+                if list.is_none() {
+                    if let syn::Expr::Path(p) = &*m.expr {
+                        if let Some(id) = p.path.get_ident() {
+                            let id = id.to_string();
+                            if let Some((_, l)) = self.kw_vars.iter().rev().find(|(n, _)| *n == id) { list = Some(l.clone()); }
+                        }
+                    }
+                }
+                let f = self.fn_stack.last().cloned().unwrap_or_default();
+                let n = self.kw_checks.iter().filter(|c| c["fn"] == f.as_str()).count();
+                let verdict = match &list {
+                    Some(l) => {
+                        let mut a = arms.clone(); a.sort(); a.dedup();
+                        let mut b = l.clone(); b.sort(); b.dedup();
+                        // every keyword the scrutinee can hold has an arm (and a possible None has one too)
+                        if b.iter().all(|k| a.contains(k)) && (!optional || none_arm) { "covered" } else { "NOT-covered" }
+                    }
+                    None => "unknown-origin",
+                };
+                self.kw_checks.push(json!({"file": self.file, "fn": f, "ordinal": n, "list": list, "arms": arms, "verdict": verdict}));
+            }
+            syn::visit::visit_expr_match(self, m);
         }
         fn visit_expr_index(&mut self, e: &'ast syn::ExprIndex) {
             use quote::ToTokens;
@@ -169,6 +280,7 @@ mod panics {
         walk(std::path::Path::new(&format!("{repo}/src")), &mut files);
         files.sort();
         let mut all = vec![];
+        let mut kwc: Vec<Value> = vec![];
         let mut unparsed = vec![];
         for f in files {
             let rel = f.strip_prefix(repo).unwrap().to_string_lossy().trim_start_matches('/').to_string();
@@ -176,14 +288,15 @@ mod panics {
             let src = std::fs::read_to_string(&f).unwrap();
             match syn::parse_file(&src) {
                 Ok(file) => {
-                    let mut v = V { file: rel, fn_stack: vec![], out: vec![], ord: BTreeMap::new(), in_test: 0 };
+                    let mut v = V { file: rel, fn_stack: vec![], out: vec![], ord: BTreeMap::new(), in_test: 0, kw_vars: vec![], kw_checks: vec![] };
                     v.visit_file(&file);
                     all.extend(v.out);
+                    kwc.extend(v.kw_checks);
                 }
                 Err(e) => unparsed.push(format!("{rel}: {e}")),
             }
         }
-        json!({"sites": all, "unparsed": unparsed})
+        json!({"sites": all, "unparsed": unparsed, "unreachable_keyword_matches": kwc})
     }
 }
 
